@@ -49,7 +49,7 @@ NOVAL = ["fv", "ic", "nv", "rv", "bc"]
 SINGLES = [[k] for k in M.KIND_ORDER]
 
 GEOMS_ALL = list(M.GEOMS)
-GEOMS_Q = ["P3", "Cchain", "Ctwo", "Clastun", "Cfirstun", "Cunord", "Cstar", "Cmidun", "Cauto", "Cparts", "S2fan", "S2first", "S2bow"]
+GEOMS_Q = ["P3", "Cloop", "Cchain", "Ctwo", "Clastun", "Cfirstun", "Cunord", "Cstar", "Cmidun", "Cauto", "Cparts", "S2fan", "S2first", "S2bow"]
 GEOMS_F2 = ["P3", "Cchain", "Clastun", "Cfirstun", "Cstar", "Cmidun", "Cauto", "Cparts", "S2fan", "S2first", "S2bow"]
 GEOMS_8 = ["P3", "Cchain", "Clastun", "Cfirstun", "Cstar", "Cparts", "S2first", "S2bow"]
 GEOMS_6 = ["P3", "Cchain", "Cfirstun", "Cstar", "Cparts", "S2first"]
